@@ -24,7 +24,7 @@ ASSUMPTIONS = [
     "a wrong-key unwrap that yields 'B' and a matching CRC by chance (p ~ 2^-24) is re-tried under 3 more keys before it is called a violation",
     "security codes are 8 bytes (the documented size); other lengths are not judged",
 ]
-TIMEOUT = {"quick": 1800, "thorough": 4 * 3600}
+TIMEOUT = {"quick": 900, "thorough": 4 * 3600}
 NSH = 16
 
 
